@@ -28,7 +28,8 @@ def call(table, kind, base):
     nc = len(table[0]) if nr else 0
     # "<kind>+eq": the row / column labels handed to the routine all compare (and hash) EQUAL although they are different
     # items - the table is positional, so this must make no difference
-    equal_labels = kind.endswith("+eq")
+    orig_kind = kind
+    equal_labels = "+eq" in kind
     kind = kind.split("+")[0]
 
     class Label:
@@ -52,6 +53,15 @@ def call(table, kind, base):
 
     real = [[conv(w) for w in row] for row in table]
     rec = {"table": table, "result": [], "raised": False, "exc": ""}
+    huge = None
+    if kind.startswith("float") and "@" in orig_kind:
+        # "float+huge@i,j,H": a complete float table of small fractions (delta / 4) in which cell (i, j) is -H (2**52,
+        # 1e15): weights of very different magnitude.  TLC sees the same table shifted so that the huge cell is 0 and every
+        # other cell 10**6 + delta (a constant shift of a complete table keeps the optimal assignments; H dominates).
+        hi_, hj_, hval = orig_kind.split("@")[1].split(",")
+        huge = (int(hi_), int(hj_), float(hval))
+        real = [[(-huge[2] if (i, j) == huge[:2] else w / 4.0) for j, w in enumerate(row)] for i, row in enumerate(table)]
+        rec["table"] = [[(0 if (i, j) == huge[:2] else 10 ** 6 + w) for j, w in enumerate(row)] for i, row in enumerate(table)]
     try:
         with deadline(10.0):
             if equal_labels:
@@ -61,6 +71,11 @@ def call(table, kind, base):
                 res = min_weight_bipartite_matching(list(range(nr)), list(range(nc)), lambda r, c: real[r][c])
         out = []
         for r, (c, w) in res.items():
+            if huge is not None:
+                d = 0 if w == -huge[2] else 10 ** 6 + w * 4
+                di = int(d) if d == int(d) else 999999
+                out.append([int(r) + 1, int(c) + 1, di])
+                continue
             if kind == "int":
                 d = w - base
             elif kind == "float":
@@ -133,6 +148,12 @@ def run():
         wmax = r.choice((1, 2, 3, 9, 300))
         tb = [[(-1 if sparse and r.random() < 0.3 else r.randint(0, wmax)) for _ in range(nc)] for _ in range(nr)]
         jobs.append((tb, r.choice(("int", "float", "int+eq", "float+eq")), r.choice(BASES[:5] + NEG_BASES)))
+    # float tables whose weights differ hugely in magnitude: one cell at -2**52 / -1e15 / -2**60, the others small fractions
+    for _ in range(200 if t == "quick" else 3000):
+        n_ = r.choice((2, 3, 3, 4))
+        tb = [[r.choice((0, 1, 2, 3, 36, 36)) for _ in range(n_)] for _ in range(n_)]
+        hi_, hj_ = r.randrange(n_), r.randrange(n_)
+        jobs.append((tb, "float+huge@%d,%d,%s" % (hi_, hj_, r.choice(("4503599627370496.0", "1e15", "1152921504606846976.0", "1e300"))), 0))
     ctx = mp.get_context("fork")
     with ctx.Pool(min(16, os.cpu_count() or 4), initializer=_init, maxtasksperchild=5000) as pool:
         records = pool.map(_job, jobs, chunksize=64)
@@ -156,7 +177,9 @@ def run():
             if v["v"] == "ACCEPT":
                 continue
             rec = records[i]
-            sig = {"clause": v["clause"], "kind": kind, "base_log2": base.bit_length(), "negative": base < 0,
+            import math
+            sig = {"clause": v["clause"], "kind": kind.split("@")[0], "base_log2": base.bit_length(), "negative": base < 0,
+                   "huge_log2": int(math.log2(float(kind.split(",")[-1]))) if "@" in kind else 0,
                    "all_missing": all(w < 0 for row in tb for w in row), "complete": complete,
                    "exc": rec["exc"].split(":")[0]}
             chk.violation(sig, {"table": tb, "kind": kind, "base": base},
